@@ -145,6 +145,8 @@ def verus_fn_extent(m, start):
             if k < n and (m[k] in ",&|=.?{<>+-*/:" or re.match(r"(as|is|matches)\b", nxt)):
                 i = c + 1
                 continue
+            if k < n and m[k] == ";":
+                return (k, None, k + 1)  # `ensures match r { .. };` of a trait method declaration
             return (i, i, c + 1)
         i += 1
     raise rs.ScanError("unterminated fn item")
